@@ -804,9 +804,10 @@ def liveCount (w : World) : Nat := w.issuedLog.length - w.retiredLog.length
 
 /-! ## In-contract operations
 
-`noKnownFinding w op` excludes exactly the territory of the known findings (see the header), the assignments that
-the code refuses *after* it has cleared the destination (a failed call that changed its receiver is C12's subject), and
-the type-refused calls that are not atomic (`typedAtomic`).
+`noKnownFinding w op` excludes exactly the territory of the known findings (see the header) — for assignment across the
+families that is `assign(Array, non-empty Table / Tree)` only (`crossRefused`); `assign(List, non-empty Table / Tree)`, which
+raises after `List_Clear` with the accounting intact, is in contract (`listCrossCleared`) — and the type-refused calls that
+are not atomic (`typedAtomic`).
 `inContract w op` additionally requires that the operation is one the op-file interpreters execute at all: an
 ill-formed operation (a name that is not bound, `new` onto a bound name, an operation the container kind does not have,
 `concat(x, x)`) is answered `bad` by harness and model alike and does nothing — it is *outside* the contract, so that no
@@ -819,11 +820,22 @@ def srcIsBox (w : World) (d : Nat) : Bool :=
   | some x => x.isBox
   | none => false
 
-/-- `assign(c, d)` of a non-empty Table / Tree to an Array / List: refused (ValueError) after the clear; an
-    Array destination is left with `len` counting records that were never constructed (own-array-assign-partial) -/
+/-- `assign(c, d)` of a non-empty Table / Tree to an **Array**: refused (ValueError) after the clear, and the Array is
+    left with `len` counting records that were never constructed — exactly the territory of KF-C05-array-assign-partial
+    (`site=Array_Assign`).  A List destination is NOT excluded: see `listCrossCleared`. -/
 def crossRefused (w : World) (c d : Nat) : Bool :=
   match lookup w.objs c, lookup w.objs d with
-  | some (.seq _ _ _), some (.map _ src) => !src.isEmpty
+  | some (.seq .array _ _), some (.map _ src) => !src.isEmpty
+  | _, _ => false
+
+/-- `assign(c, d)` of a non-empty Table / Tree to a **List**: `List_Assign` clears the list (every element finalised),
+    then `get(obj, $I(0))` raises ValueError before anything is pushed.  The ownership accounting is right (live = Σ len,
+    every old element finalised once): the call is IN the contract.  It is the one in-contract call that raises and has
+    changed its receiver (that a failed call changed its receiver is C12's KF-C12-assign-clears, not an ownership
+    matter): `C05_refused_no_effect_partial` names it by this predicate. -/
+def listCrossCleared (w : World) (c d : Nat) : Bool :=
+  match lookup w.objs c, lookup w.objs d with
+  | some (.seq .list _ _), some (.map _ src) => !src.isEmpty
   | _, _ => false
 
 /-- type-refused calls that are NOT atomic (the code makes room before the element's own type check runs):
